@@ -6,9 +6,9 @@ namespace Hctl
 open Kripke
 
 section
-variable {C : CharClass} {E : Env} (hE : EnvOK E) (hG : GraphWF E.G) {K : SemCtx} (hK : CtxOK E K) {U0 : CSet}
+variable {C : CharClass} (hC : Lex.CharsOK C) {E : Env} (hE : EnvOK E) (hG : GraphWF E.G) {K : SemCtx} (hK : CtxOK E K) {U0 : CSet}
   (hKS : KeySem C E K U0) (hKW : KeyWild C E K U0) (hA : C12.GraphAsync E.G)
-include hE hG hK hKS hKW hA
+include hC hE hG hK hKS hKW hA
 
 theorem evalNode_sound :
     ∀ t U ds ctx, GoodQ C E K U0 t U ds → ctx.fvd = fvdOf ds → CacheOK C E K U0 ctx →
@@ -18,18 +18,18 @@ theorem evalNode_sound :
   induction t with
   | atom a =>
     intro U ds ctx hq hfvd hc
-    rcases lookup_spec hE hG hK hKS hKW hq hfvd hc with ⟨r, ctx', hl, hs, hc', hf⟩ | ⟨save, key, ren, hl, hkey, hnw, hsave⟩
+    rcases lookup_spec hC hE hG hK hKS hKW hq hfvd hc with ⟨r, ctx', hl, hs, hc', hf⟩ | ⟨save, key, ren, hl, hkey, hnw, hsave⟩
     · exact ⟨r, ctx', by unfold Eval.evalNode; rw [hl], hs, hc', hf⟩
     · unfold Eval.evalNode
       rw [hl]
       cases a with
       | tt =>
         have hs : Sem E U U (sat E.G K (.atom .tt)) := fun p _ => by simp [sat]
-        have := store_ok hE hG hK hKS hKW hq hkey hnw hsave hs hc
+        have := store_ok hC hE hG hK hKS hKW hq hkey hnw hsave hs hc
         exact ⟨U, _, by simp [isAttractorPattern, isFixedPointPattern], hs, this.1, this.2⟩
       | ff =>
         have hs : Sem E CSet.empty U (sat E.G K (.atom .ff)) := fun p _ => by simp [sat, CSet.empty]
-        have := store_ok hE hG hK hKS hKW hq hkey hnw hsave hs hc
+        have := store_ok hC hE hG hK hKS hKW hq hkey hnw hsave hs hc
         exact ⟨CSet.empty, _, by simp [isAttractorPattern, isFixedPointPattern], hs, this.1, this.2⟩
       | var n =>
         have hn : varId n < ds.length := hq.wscoped
@@ -38,7 +38,7 @@ theorem evalNode_sound :
           apply Sem.tab hE
           intro p _
           simp only [sat, Ops.comparatorVarState, Bool.and_eq_true, beq_iff_eq]
-        have := store_ok hE hG hK hKS hKW hq hkey hnw hsave hs hc
+        have := store_ok hC hE hG hK hKS hKW hq hkey hnw hsave hs hc
         exact ⟨_, _, by simp [isAttractorPattern, isFixedPointPattern, hk], hs, this.1, this.2⟩
       | prop n =>
         have hlab : (E.G.label n).isSome = true := hq.labelled
@@ -52,12 +52,12 @@ theorem evalNode_sound :
             constructor
             · rintro ⟨h1, h2⟩; exact ⟨h2, f, rfl, h1⟩
             · rintro ⟨h2, f', hf', h1⟩; cases hf'; exact ⟨h1, h2⟩
-          have := store_ok hE hG hK hKS hKW hq hkey hnw hsave hs hc
+          have := store_ok hC hE hG hK hKS hKW hq hkey hnw hsave hs hc
           exact ⟨_, _, by simp [isAttractorPattern, isFixedPointPattern, hl'], hs, this.1, this.2⟩
       | wild w => simp [Tree.isWild] at hnw
   | un o c ih =>
     intro U ds ctx hq hfvd hc
-    rcases lookup_spec hE hG hK hKS hKW hq hfvd hc with ⟨r, ctx', hl, hs, hc', hf⟩ | ⟨save, key, ren, hl, hkey, hnw, hsave⟩
+    rcases lookup_spec hC hE hG hK hKS hKW hq hfvd hc with ⟨r, ctx', hl, hs, hc', hf⟩ | ⟨save, key, ren, hl, hkey, hnw, hsave⟩
     · exact ⟨r, ctx', by unfold Eval.evalNode; rw [hl], hs, hc', hf⟩
     · have hqc : GoodQ C E K U0 c U ds :=
         ⟨hq.wscoped, hq.named, hq.dk, hq.domsIn, hq.domsDs, hq.wildsIn, hq.labelled, hq.unit, hq.desc,
@@ -65,14 +65,14 @@ theorem evalNode_sound :
       obtain ⟨cr, ctx1, hev, hsc, hc1, hf1⟩ := ih U ds ctx hqc hfvd hc
       have hs : Sem E (E.tab (Eval.evalUn E U (Ops.steadyOf E U0) o cr)) U (sat E.G K (.un o c)) :=
         Sem.tab hE (sem_evalUn hE hG K hq.unit o c hsc)
-      have := store_ok hE hG hK hKS hKW hq hkey hnw hsave hs hc1
+      have := store_ok hC hE hG hK hKS hKW hq hkey hnw hsave hs hc1
       refine ⟨_, _, ?_, hs, this.1, this.2.trans hf1⟩
       unfold Eval.evalNode
       rw [hl]
       simp [isAttractorPattern, isFixedPointPattern, hev]
   | bin o l r ihl ihr =>
     intro U ds ctx hq hfvd hc
-    rcases lookup_spec hE hG hK hKS hKW hq hfvd hc with ⟨r', ctx', hl, hs, hc', hf⟩ | ⟨save, key, ren, hl, hkey, hnw, hsave⟩
+    rcases lookup_spec hC hE hG hK hKS hKW hq hfvd hc with ⟨r', ctx', hl, hs, hc', hf⟩ | ⟨save, key, ren, hl, hkey, hnw, hsave⟩
     · exact ⟨r', ctx', by unfold Eval.evalNode; rw [hl], hs, hc', hf⟩
     · have hql : GoodQ C E K U0 l U ds :=
         ⟨hq.wscoped.1, hq.named.1, hq.dk, hq.domsIn.1, hq.domsDs, hq.wildsIn.1, hq.labelled.1, hq.unit, hq.desc,
@@ -84,14 +84,14 @@ theorem evalNode_sound :
       obtain ⟨rr, ctx2, hev2, hsr, hc2, hf2⟩ := ihr U ds ctx1 hqr (hf1.trans hfvd) hc1
       have hs : Sem E (E.tab (Eval.evalBin E U (Ops.steadyOf E U0) o lr rr)) U (sat E.G K (.bin o l r)) :=
         Sem.tab hE (sem_evalBin hE hG K hq.unit o l r hsl hsr)
-      have := store_ok hE hG hK hKS hKW hq hkey hnw hsave hs hc2
+      have := store_ok hC hE hG hK hKS hKW hq hkey hnw hsave hs hc2
       refine ⟨_, _, ?_, hs, this.1, this.2.trans (hf2.trans hf1)⟩
       unfold Eval.evalNode
       rw [hl]
       simp [isAttractorPattern, isFixedPointPattern, hev1, hev2]
   | hyb op v dom c ih =>
     intro U ds ctx hq hfvd hc
-    rcases lookup_spec hE hG hK hKS hKW hq hfvd hc with ⟨r', ctx', hl, hs, hc', hf⟩ | ⟨save, key, ren, hl, hkey, hnw, hsave⟩
+    rcases lookup_spec hC hE hG hK hKS hKW hq hfvd hc with ⟨r', ctx', hl, hs, hc', hf⟩ | ⟨save, key, ren, hl, hkey, hnw, hsave⟩
     · exact ⟨r', ctx', by unfold Eval.evalNode; rw [hl], hs, hc', hf⟩
     · by_cases hpa : isAttractorPattern (.hyb op v dom c) = true
       · -- the attractor shortcut
@@ -104,7 +104,7 @@ theorem evalNode_sound :
         have hs : Sem E (E.tab (Ops.attractorsOf E U)) U (sat E.G K (.hyb op v dom c)) := by
           rw [hx]
           exact Sem.tab hE (C12.attractor_shortcut_correct hE hG hq.unit x hvd hdk K _ (attrSpec hE hG U))
-        have := store_ok hE hG hK hKS hKW hq hkey hnw hsave hs hc
+        have := store_ok hC hE hG hK hKS hKW hq hkey hnw hsave hs hc
         refine ⟨_, _, ?_, hs, this.1, this.2⟩
         unfold Eval.evalNode
         rw [hl]
@@ -143,7 +143,7 @@ theorem evalNode_sound :
             have hk : ¬ (varId v ≥ E.G.k) := by have := hq.dk; have := hw.1; omega
             have hs : Sem E (E.tab (Ops.evalJump E U cr (varId v))) U (sat E.G K (.hyb .jump v dom c)) :=
               Sem.tab hE (sem_jumpNode hE hG K hq.unit v dom c hsc)
-            have := store_ok hE hG hK hKS hKW hq hkey hnw hsave hs hc1
+            have := store_ok hC hE hG hK hKS hKW hq hkey hnw hsave hs hc1
             refine ⟨_, _, ?_, hs, this.1, this.2.trans hf1⟩
             unfold Eval.evalNode
             rw [hl]
@@ -179,7 +179,7 @@ theorem evalNode_sound :
               have hs : Sem E (E.tab (Eval.hybridQuantifier E U U op (varId v) cr)) U (sat E.G K (.hyb op v none c)) :=
                 Sem.tab hE (sem_quantNoDom hE hG K hq.unit op hj v hvd hdk c hsc)
               have hc2 : CacheOK C E K U0 { ctx1 with fvd := domRemove v ctx1.fvd } := hc1.fvd_irrel _
-              have := store_ok hE hG hK hKS hKW hq hkey hnw hsave hs hc2
+              have := store_ok hC hE hG hK hKS hKW hq hkey hnw hsave hs hc2
               refine ⟨_, _, ?_, hs, this.1, ?_⟩
               · unfold Eval.evalNode
                 rw [hl]
@@ -217,7 +217,7 @@ theorem evalNode_sound :
                   rw [hins]; exact hrem
               · have hqc : GoodQ C E K U0 c (E.tab (U.inter (E.tab (Ops.validDomain E U dsl (varId v))))) (ds ++ [some l]) := by
                   refine ⟨by simpa using hwc, by simpa using hnc, by simp; omega, hdic, ?_, hq.wildsIn, hq.labelled,
-                    by simpa using unitOK_restricted hE hG hK hKS hKW hl' hq.unit hmem, unitDesc_snoc_some hE hl' hq.desc hmem,
+                    by simpa using unitOK_restricted hC hE hG hK hKS hKW hl' hq.unit hmem, unitDesc_snoc_some hE hl' hq.desc hmem,
                     by have := hq.valid; simp only [Lex.TreeOK, PropNamesOK] at this; exact ⟨this.1.2.2, this.2⟩⟩
                   intro i l2 hil
                   by_cases hi : i < ds.length
@@ -233,7 +233,7 @@ theorem evalNode_sound :
                     (sat E.G K (.hyb op v (some l) c)) :=
                   Sem.tab hE (sem_quantDom hE hG K hK hq.unit op hj v l hl' hvd hdk c hmem hsc)
                 have hc2 : CacheOK C E K U0 { ctx1 with fvd := domRemove v ctx1.fvd } := hc1.fvd_irrel _
-                have := store_ok hE hG hK hKS hKW hq hkey hnw hsave hs hc2
+                have := store_ok hC hE hG hK hKS hKW hq hkey hnw hsave hs hc2
                 refine ⟨_, _, ?_, hs, this.1, ?_⟩
                 · unfold Eval.evalNode
                   rw [hl]
